@@ -338,3 +338,127 @@ Proof.
   exists a, b. split; [exact L8|]. split; [exact L9|].
   split; [apply (Forall2_imp _ _ _ _ (system_unit_target rrows) Ha)|apply (Forall2_imp _ _ _ _ (system_unit_target rrows) Hb)].
 Qed.
+
+(* ------------------------------------------------------------------ the POS table of the records is writable text *)
+Definition scalar (s : text) : Prop := forallb is_scalar s = true.
+
+Lemma split_on_scalar : forall sep s, scalar s -> Forall scalar (split_on sep s).
+Proof.
+  unfold scalar. induction s as [|c t IH]; intros H; cbn [split_on]; [repeat constructor|].
+  cbn [forallb] in H. apply andb_true_iff in H as [Hc Ht]. specialize (IH Ht).
+  destruct (c =? sep); [constructor; [reflexivity|exact IH]|].
+  destruct (split_on sep t) as [|h r]; [repeat constructor; cbn; rewrite Hc; reflexivity|].
+  inversion IH; subst. constructor; [cbn [forallb]; rewrite Hc; assumption|assumption].
+Qed.
+
+Lemma splitn_scalar : forall sep s n, scalar s -> Forall scalar (splitn n sep s).
+Proof.
+  unfold scalar. induction s as [|c t IH]; intros n H.
+  - destruct n as [|[|k]]; cbn [splitn]; repeat constructor.
+  - assert (H' := H). cbn [forallb] in H. apply andb_true_iff in H as [Hc Ht].
+    destruct n as [|[|k]]; cbn [splitn]; [constructor|repeat constructor; exact H'|].
+    destruct (c =? sep); [constructor; [reflexivity|apply IH; exact Ht]|].
+    pose proof (IH (S (S k)) Ht) as IH2.
+    destruct (splitn (S (S k)) sep t) as [|h r]; [repeat constructor; cbn; rewrite Hc; reflexivity|].
+    inversion IH2; subst. constructor; [cbn [forallb]; rewrite Hc; assumption|assumption].
+Qed.
+
+Definition table_ok (st : pos_state) : Prop := pos_inv st /\ Forall posrow_ok st.
+
+Lemma pos_of_table : pos_limit_ok = true -> forall st p st' id, table_ok st -> posrow_ok p -> pos_of st p = ROk (st', id) -> table_ok st'.
+Proof.
+  intros HL st p st' id [Hi Hf] Hp H. destruct (pos_of_spec HL st p st' id Hi H) as (Hi' & _ & _ & Hc).
+  split; [exact Hi'|]. destruct Hc as [[_ ->]|(_ & -> & _)]; [exact Hf|]. apply Forall_app. split; [exact Hf|constructor; [exact Hp|constructor]].
+Qed.
+
+Lemma parse_split_table : pos_limit_ok = true -> forall st item st' u, table_ok st -> scalar item ->
+  parse_split st item = ROk (st', u) -> table_ok st'.
+Proof.
+  intros HL st item st' u Hinv Hsc H. unfold parse_split in H.
+  destruct (is_wid_literal item).
+  - destruct (parse_wordid item); [|discriminate]. cbn [bind] in H. inversion H; subst. exact Hinv.
+  - pose proof (splitn_scalar COMMA item (N.to_nat CF.inline_splitn) Hsc) as Hp.
+    destruct (splitn (N.to_nat CF.inline_splitn) COMMA item) as [|f0 rest]; [discriminate|].
+    inversion Hp as [|? ? _ Hp1]; subst.
+    destruct (unescape f0) as [surface|]; [|discriminate]. cbn [bind] in H.
+    destruct rest as [|f1 rest]; [discriminate|]. inversion Hp1 as [|? ? S1 Hp2]; subst. destruct (unescape f1) as [q1|] eqn:U1; [|discriminate]. cbn [bind] in H.
+    destruct rest as [|f2 rest]; [discriminate|]. inversion Hp2 as [|? ? S2 Hp3]; subst. destruct (unescape f2) as [q2|] eqn:U2; [|discriminate]. cbn [bind] in H.
+    destruct rest as [|f3 rest]; [discriminate|]. inversion Hp3 as [|? ? S3 Hp4]; subst. destruct (unescape f3) as [q3|] eqn:U3; [|discriminate]. cbn [bind] in H.
+    destruct rest as [|f4 rest]; [discriminate|]. inversion Hp4 as [|? ? S4 Hp5]; subst. destruct (unescape f4) as [q4|] eqn:U4; [|discriminate]. cbn [bind] in H.
+    destruct rest as [|f5 rest]; [discriminate|]. inversion Hp5 as [|? ? S5 Hp6]; subst. destruct (unescape f5) as [q5|] eqn:U5; [|discriminate]. cbn [bind] in H.
+    destruct rest as [|f6 rest]; [discriminate|]. inversion Hp6 as [|? ? S6 Hp7]; subst. destruct (unescape f6) as [q6|] eqn:U6; [|discriminate]. cbn [bind] in H.
+    destruct rest as [|f7 rest]; [discriminate|]. destruct (unescape f7) as [rd|]; [|discriminate]. cbn [bind] in H.
+    destruct (pos_of st (((((([] ++ [q1]) ++ [q2]) ++ [q3]) ++ [q4]) ++ [q5]) ++ [q6])) as [[st1 pid]|] eqn:Ep; [|discriminate].
+    cbn [bind fst snd] in H. inversion H; subst.
+    apply (pos_of_table HL _ _ _ _ Hinv) in Ep; [exact Ep|]. cbn [app]. split; [reflexivity|].
+    constructor; [exact (unescape_scalar _ _ S1 U1)|]. constructor; [exact (unescape_scalar _ _ S2 U2)|].
+    constructor; [exact (unescape_scalar _ _ S3 U3)|]. constructor; [exact (unescape_scalar _ _ S4 U4)|].
+    constructor; [exact (unescape_scalar _ _ S5 U5)|]. constructor; [exact (unescape_scalar _ _ S6 U6)|]. constructor.
+Qed.
+
+Lemma parse_split_items_table : pos_limit_ok = true -> forall items st st' us, table_ok st -> Forall scalar items ->
+  parse_split_items st items = ROk (st', us) -> table_ok st'.
+Proof.
+  intros HL. induction items as [|x t IH]; intros st st' us Hinv Hsc H; cbn [parse_split_items] in H.
+  - inversion H; subst. exact Hinv.
+  - inversion Hsc as [|? ? Hx Ht]; subst. destruct (parse_split st x) as [[st1 u]|] eqn:E1; [|discriminate]. cbn [bind fst snd] in H.
+    destruct (parse_split_items st1 t) as [[st2 us']|] eqn:E2; [|discriminate]. cbn [bind fst snd] in H. inversion H; subst.
+    apply (IH _ _ _ (parse_split_table HL _ _ _ _ Hinv Hx E1) Ht E2).
+Qed.
+
+Lemma parse_splits_table : pos_limit_ok = true -> forall st s st' us, table_ok st -> scalar s ->
+  parse_splits st s = ROk (st', us) -> table_ok st'.
+Proof.
+  intros HL st s st' us Hinv Hsc H. unfold parse_splits in H. destruct (empty_or_star s); [inversion H; subst; exact Hinv|].
+  destruct (parse_split_items st (split_on SLASH s)) as [[st1 us1]|] eqn:E; [|discriminate]. cbn [bind snd] in H.
+  destruct (list_too_long us1); [discriminate|]. inversion H; subst.
+  apply (parse_split_items_table HL _ _ _ _ Hinv (split_on_scalar SLASH s Hsc) E).
+Qed.
+
+Lemma parse_record_table : pos_limit_ok = true -> word_mask_ok = true -> forall st f st' r, table_ok st -> fields_scalar f ->
+  parse_record st f = ROk (st', r) -> table_ok st'.
+Proof.
+  intros HL HM st f st' r Hinv Hf H. unfold parse_record in H.
+  destruct (decode_head f) as [h|] eqn:Eh; [|discriminate]. cbn [bind] in H.
+  destruct (bind (get f "split_a") (parse_splits st)) as [[st1 sa]|] eqn:Ea; [|discriminate]. cbn [bind fst snd] in H.
+  destruct (bind (get f "split_b") (parse_splits st1)) as [[st2 sb]|] eqn:Eb; [|discriminate]. cbn [bind fst snd] in H.
+  destruct (decode_tail f) as [t|]; [|discriminate]. cbn [bind] in H.
+  destruct (pos_of st2 (h_pos h)) as [[st3 pid]|] eqn:Ep; [|discriminate]. cbn [bind fst snd] in H.
+  destruct ((h_mode h =? 0) && negb match sa with [] => match sb with [] => true | _ :: _ => false end | _ :: _ => false end); [discriminate|].
+  destruct (match h_surface h with [] => true | _ :: _ => false end); [discriminate|].
+  destruct (has_nul (h_surface h)); [discriminate|]. inversion H; subst st' r; clear H.
+  assert (Hsc : forall v s, get f v = ROk s -> scalar s).
+  { intros v s Hg. unfold fields_scalar in Hf. rewrite Forall_forall in Hf. apply Hf. eapply get_in. exact Hg. }
+  assert (T1 : table_ok st1).
+  { destruct (get f "split_a") as [s|] eqn:G; [|discriminate]. cbn [bind] in Ea. apply (parse_splits_table HL _ _ _ _ Hinv (Hsc _ _ G) Ea). }
+  assert (T2 : table_ok st2).
+  { destruct (get f "split_b") as [s|] eqn:G; [|discriminate]. cbn [bind] in Eb. apply (parse_splits_table HL _ _ _ _ T1 (Hsc _ _ G) Eb). }
+  destruct (decode_head_ok HM f h Hf Eh) as (_ & _ & _ & _ & Hp & _).
+  apply (pos_of_table HL _ _ _ _ T2 Hp Ep).
+Qed.
+
+Lemma parse_records_table : pos_limit_ok = true -> word_mask_ok = true -> forall rows st st' rrows, table_ok st -> Forall fields_scalar rows ->
+  parse_records st rows = ROk (st', rrows) -> table_ok st'.
+Proof.
+  intros HL HM. induction rows as [|f t IH]; intros st st' rrows Hinv Hf H; cbn [parse_records] in H.
+  - inversion H; subst. exact Hinv.
+  - inversion Hf as [|? ? Hx Ht]; subst. destruct (parse_record st f) as [[st1 r]|] eqn:E; [|discriminate]. cbn [bind fst snd] in H.
+    destruct (parse_records st1 t) as [[st2 rs]|] eqn:Et; [|discriminate]. cbn [bind fst snd] in H. inversion H; subst.
+    apply (IH _ _ _ (parse_record_table HL HM _ _ _ _ Hinv Hx E) Ht Et).
+Qed.
+
+(* the POS table of a compiled system lexicon, written by write_pos_table, is read back by the grammar reader as the very
+   table the records were numbered against: part_of_speech(id) = pos_list[id] = the six components of the row *)
+Theorem records_pos_table_roundtrip :
+  len_thresholds_ok = true -> pos_limit_ok = true -> word_mask_ok = true -> CF.POS_DEPTH = 6 ->
+  forall rows st rrows b rest,
+  Forall fields_scalar rows -> parse_records [] rows = ROk (st, rrows) ->
+  pos_table_bytes st = Some b -> read_pos_table (b ++ rest) = Some (st, rest).
+Proof.
+  intros Hok HL HM Hd rows st rrows b rest Hf Hp Hb.
+  assert (H0 : table_ok []).
+  { split; [split; [constructor|]|constructor]. unfold pos_limit_ok in HL. apply andb_true_iff in HL as [HL _]. apply andb_true_iff in HL as [_ H0]. cbn. lia. }
+  destruct (parse_records_table HL HM rows [] st rrows H0 Hf Hp) as [[_ Hlen] Hall].
+  apply (pos_table_roundtrip Hok Hd st b rest Hall); [|exact Hb].
+  unfold pos_limit_ok in HL. apply andb_true_iff in HL as [_ H65]. lia.
+Qed.
